@@ -1213,7 +1213,8 @@ class Pulse(Function):
         if self.interval.element == 0.0:
             return "(({}/{}) if {}=={} else 0.0)".format(self.volume.term(time), self.model.dt, time, self.first_pulse)
         else:
-            return "(({volume}/{dt}) if (({time}-{first_pulse}) >= 0 and (({time}-{first_pulse})%({interval}))==0) else 0.0)".format(volume=self.volume.term(time), dt=self.model.dt, time=time, first_pulse=self.first_pulse, interval=self.interval)
+            # "is a whole number of intervals after the first pulse", tolerant to float error (0.7-0.1)%0.2 is not 0
+            return "(({volume}/{dt}) if (({time}-{first_pulse}) >= -1e-9 and abs((({time}-{first_pulse})/({interval})) - round(({time}-{first_pulse})/({interval}))) < 1e-9) else 0.0)".format(volume=self.volume.term(time), dt=self.model.dt, time=time, first_pulse=self.first_pulse, interval=self.interval)
 
 
 class Trend(Function):
